@@ -548,7 +548,7 @@ class DEVSSimulator(Simulator[TIME], Generic[TIME]):
         
     def schedule_event(self, event: SimEventInterface) -> SimEventInterface:
         """schedule the provided event on the event list"""
-        if event.time < self._simulator_time:
+        if not event.time >= self._simulator_time:
             raise DSOLError("cannot schedule event in the past")
         self._eventlist.add(event)
         return event
@@ -575,7 +575,7 @@ class DEVSSimulator(Simulator[TIME], Generic[TIME]):
                  **kwargs) -> SimEventInterface:
         """schedule a methodCall at a relative duration. The execution 
         time is thus simulator.simulator_time + delay."""
-        if time < self._simulator_time:
+        if not time >= self._simulator_time:
             raise DSOLError("cannot schedule event in the past")
         return self.schedule_event(SimEvent(time,
                  target, method, priority, **kwargs))
